@@ -31,13 +31,13 @@ impl Property for C16 {
         "fault_enumeration"
     }
     fn rule(&self) -> &'static str {
-        "A case = generated stream (clean or noisy) x pipeline of any class x --on-error policy x output style x delivery knobs. Per case the check enumerates fault points: every input byte offset 0..=len as a failing read (all offsets when the stream is <= 400 bytes in quick tier, otherwise all piece boundaries plus a seeded sample; all offsets in thorough tier), every offset of the fault-free stdout as a failing write, every offset of the fault-free stderr likewise, each in a sticky or recovering world with seeded EINTR/short-transfer garnish before the fault; plus fault-free 'transparent' runs (EINTR/short only), Ok(0) writes and double faults; family 'sweep-read-file' does the same for 1..3 file arguments behind the opener seam (hook H2: every offset of every file, sampled above 200 bytes, plus a failing open; one file in six larger than jawk's 8 KiB BufReader; a single file may sit behind a nested directory argument), judged over all sources: no successful read and no further open anywhere after the failure. evaluations = fault points executed (one jawk run each, plus one reference run per case). A point is non-trivial iff the planned fault was actually delivered by the stub (or, for transparent runs, at least one EINTR/short transfer was delivered); distinct = distinct abstract traces (run-length-compressed sequence of seam event kinds and results + outcome class) among non-trivial points. Round 7: one scenario in five holds values that almost are JSON (surrogate halves, short \\u escapes, non-UTF-8 strings, numbers and containers broken late); one sweep in thirty runs over a value nested 515..700 deep; one scenario in five names file arguments with multi-byte characters (long) or with a comma and a blank."
+        "A case = generated stream (clean or noisy) x pipeline of any class x --on-error policy x output style x delivery knobs. Per case the check enumerates fault points: every input byte offset 0..=len as a failing read (all offsets when the stream is <= 400 bytes in quick tier, otherwise all piece boundaries plus a seeded sample; all offsets in thorough tier), every offset of the fault-free stdout as a failing write, every offset of the fault-free stderr likewise, each in a sticky or recovering world with seeded EINTR/short-transfer garnish before the fault; plus fault-free 'transparent' runs (EINTR/short only), Ok(0) writes and double faults; family 'sweep-read-file' does the same for 1..3 file arguments behind the opener seam (hook H2: every offset of every file, sampled above 200 bytes, plus a failing open; one file in six larger than jawk's 8 KiB BufReader; a single file may sit behind a nested directory argument), judged over all sources: no successful read and no further open anywhere after the failure; family 'sweep-list' (hook H3) spreads 2..4 files over directory arguments (one flat directory; a plain file then a directory; a directory with a sub-directory; two directories) whose listings the simulator owns: seeded listing order, and per directory the listing that cannot be opened and every entry position 0..=n as the failing one (sticky or recovering), judged like a read failure (Err returned, nothing opened or read afterwards, streaming stdout a prefix of the fault-free run with the same listing order). evaluations = fault points executed (one jawk run each, plus one reference run per case). A point is non-trivial iff the planned fault was actually delivered by the stub (or, for transparent runs, at least one EINTR/short transfer was delivered); distinct = distinct abstract traces (run-length-compressed sequence of seam event kinds and results + outcome class) among non-trivial points. Round 7: one scenario in five holds values that almost are JSON (surrogate halves, short \\u escapes, non-UTF-8 strings, numbers and containers broken late); one sweep in thirty runs over a value nested 515..700 deep; one scenario in five names file arguments with multi-byte characters (long) or with a comma and a blank."
     }
     fn assumptions(&self) -> Vec<String> {
         vec![
             "in-process seams: jawk::go with stub Read/Write objects; std Bytes/BufReader/write_all are real".into(),
             "reference = fault-free whole-buffer run of the same code; data semantics are not modelled".into(),
-            "stdin only (file arguments are faulted at the process level under C20)".into(),
+            "stdin, file arguments behind the opener seam (H2) and directory listings behind the lister seam (H3); the process level is under C20".into(),
             "flushing is not judged here (go never flushes; stubs are unbuffered)".into(),
         ]
     }
@@ -63,13 +63,14 @@ impl Property for C16 {
     }
 
     fn generate(&self, rng: &mut Rng, tier: Tier) -> Case {
-        let family = match rng.below(24) {
+        let family = match rng.below(27) {
             0..=7 => "sweep-read",
             8..=14 => "sweep-write",
             15..=16 => "transparent",
             17 => "zero",
             18 => "double",
-            _ => "sweep-read-file",
+            19..=23 => "sweep-read-file",
+            _ => "sweep-list",
         };
         let mut case = Case::new("C16", family);
         let noisy = rng.chance(1, 2);
@@ -183,6 +184,34 @@ impl Property for C16 {
                     case.set("as_dir", 1);
                 }
             }
+            "sweep-list" => {
+                // files inside directory arguments whose listings the simulator owns (H3)
+                case.delivery = Delivery {
+                    whole: true,
+                    ..Delivery::default()
+                };
+                for _ in 0..4 {
+                    let inside = rng.chance(1, 4);
+                    super::c17::place_cuts(rng, &mut case, inside);
+                    if !case.cuts().is_empty() {
+                        break;
+                    }
+                }
+                let n = case.cuts().len() + 1;
+                case.files = (0..n).map(|_| FilePlan::default()).collect();
+                case.set("layout", rng.range(1, 4) as i64);
+                // listing orders: a seeded permutation per directory (two at most)
+                case.dirs = (0..2)
+                    .map(|_| {
+                        let mut order: Vec<usize> = (0..n).collect();
+                        rng.shuffle(&mut order);
+                        DirPlan {
+                            order,
+                            ..DirPlan::default()
+                        }
+                    })
+                    .collect();
+            }
             "double" => {
                 case.rfault = Some(Fault {
                     at: rng.below(len + 1),
@@ -206,6 +235,9 @@ impl Property for C16 {
     fn check(&self, case: &Case, ctx: &mut Ctx) -> Option<Violation> {
         if case.family == "sweep-read-file" || case.family == "file-point" {
             return check_files(case, ctx);
+        }
+        if case.family == "sweep-list" || case.family == "list-point" {
+            return check_lists(case, ctx);
         }
         let input = case.stream();
         let reference = ctx.exec(ref_spec(case, &input));
@@ -795,6 +827,192 @@ fn check_file_point(case: &Case, paths: &[String], datas: &[Vec<u8>], reference:
         return viol(
             "C16.read-stops",
             format!("{what}; {} further file(s) were opened afterwards", r.obs.opens_after_any_rfault),
+        );
+    }
+    if classify(&case.opts) != Class::Buffering && !is_prefix(&so, &ro) {
+        let cp = common_prefix(&so, &ro);
+        let mut ok = false;
+        if policy_of(&case.opts) == Policy::Stdout {
+            let ls = so[..cp].iter().rposition(|b| *b == b'\n').map_or(0, |p| p + 1);
+            let tail = &so[ls..];
+            let nl = tail.iter().filter(|b| **b == b'\n').count();
+            ok = tail.starts_with(b"error:") && nl <= 1 && is_prefix(&so[..ls], &ro);
+        }
+        if !ok {
+            return viol(
+                "C16.prefix",
+                format!("{what}; streaming pipeline: stdout is not a prefix of the fault-free stdout (first difference at byte {cp}): {} vs {}", show(&so), show(&ro)),
+            );
+        }
+    }
+    None
+}
+
+// ---------------------------------------------------------------------------------------
+// Failures of directory listings (hook H3: the directory lister seam)
+
+fn check_lists(case: &Case, ctx: &mut Ctx) -> Option<Violation> {
+    let datas = split_files(case);
+    if case.files.len() != datas.len() || case.opts.iter().flatten().any(|t| t.contains("&file-name")) {
+        ctx.stats.invalid = true;
+        return None;
+    }
+    let root = ctx.fresh_dir()?;
+    let lay = lay_out(&root, datas.len(), case.param("layout"), ctx.name_style);
+    let res = check_lists_in(case, ctx, &datas, &lay);
+    let _ = std::fs::remove_dir_all(&root);
+    res
+}
+
+fn check_lists_in(case: &Case, ctx: &mut Ctx, datas: &[Vec<u8>], lay: &DirLayout) -> Option<Violation> {
+    // the reference: same layout, same listing orders, nothing fails
+    let calm: Vec<DirPlan> = case
+        .dirs
+        .iter()
+        .map(|d| DirPlan {
+            order: d.order.clone(),
+            ..DirPlan::default()
+        })
+        .collect();
+    let mut refcase = case.clone();
+    refcase.out = SinkPlan::default();
+    refcase.err = SinkPlan::default();
+    let reference = ctx.exec(sim_layout_spec(&refcase, lay, datas, &[], &calm));
+    match &reference.outcome {
+        Outcome::Panic(..) | Outcome::Abort(_) | Outcome::Clap(_) => {
+            ctx.stats.invalid = true;
+            ctx.jawk_panic = None;
+            return None;
+        }
+        _ => {}
+    }
+    if case.family == "list-point" {
+        return check_list_point(case, lay, datas, &reference, ctx);
+    }
+    let seed = case.param("sweep_seed") as u64;
+    for (j, (_, entries)) in lay.dirs.iter().enumerate() {
+        // the listing cannot be opened; every position of the listing fails, the one that
+        // would have reported its end included
+        let mut points: Vec<usize> = (0..=entries.len()).collect();
+        points.push(usize::MAX);
+        for k in points {
+            let worlds: &[bool] = if ctx.tier == Tier::Thorough { &[true, false] } else { &[true] };
+            for (wi, _) in worlds.iter().enumerate() {
+                let mut rng = Rng::new(mix(&[seed, j as u64, k as u64, wi as u64, 6]));
+                let mut p = case.clone();
+                p.family = "list-point".into();
+                p.files = datas.iter().map(|d| gen_file_plan(&mut rng, d.len())).collect();
+                while p.dirs.len() <= j {
+                    p.dirs.push(DirPlan::default());
+                }
+                let kind = *rng.pick(&[ErrKind::Other, ErrKind::PermissionDenied, ErrKind::TimedOut, ErrKind::InvalidData, ErrKind::UnexpectedEof, ErrKind::ConnectionReset]);
+                if k == usize::MAX {
+                    p.dirs[j].open_fails = Some(kind);
+                } else {
+                    p.dirs[j].entry_fault = Some(Fault {
+                        at: k,
+                        kind,
+                        sticky: if ctx.tier == Tier::Thorough { wi == 0 } else { rng.chance(1, 2) },
+                    });
+                }
+                if let Some(mut v) = check_list_point(&p, lay, datas, &reference, ctx) {
+                    v.reduced = Some(Box::new(p));
+                    return Some(v);
+                }
+            }
+        }
+    }
+    None
+}
+
+fn check_list_point(case: &Case, lay: &DirLayout, datas: &[Vec<u8>], reference: &RunOut, ctx: &mut Ctx) -> Option<Violation> {
+    ctx.sub_begin();
+    let r = ctx.exec(sim_layout_spec(case, lay, datas, &case.files, &case.dirs));
+    let planned: Vec<usize> = (0..case.dirs.len().min(lay.dirs.len()))
+        .filter(|j| case.dirs[*j].open_fails.is_some() || case.dirs[*j].entry_fault.is_some())
+        .collect();
+    let delivered: Vec<usize> = planned
+        .iter()
+        .copied()
+        .filter(|j| r.obs.dirs.get(*j).map_or(false, |d| d.fault_delivered))
+        .collect();
+    let ld = !delivered.is_empty();
+    let transfers = r.obs.intr_reads + r.obs.short_reads;
+    ctx.sub_end(ld || (planned.is_empty() && transfers > 0));
+    if ld {
+        let j = delivered[0];
+        if case.dirs[j].open_fails.is_some() {
+            ctx.stats.fault("dir.open.failed", 1);
+        } else if let Some(f) = &case.dirs[j].entry_fault {
+            ctx.stats.fault("dir.entry.failed", 1);
+            ctx.stats.fault(if f.sticky { "dir.entry.failed.sticky" } else { "dir.entry.failed.recovers" }, 1);
+            if f.at == 0 {
+                ctx.stats.probe("listing fault on the first entry");
+            }
+            if f.at == lay.dirs[j].1.len() {
+                ctx.stats.probe("listing fault instead of the end of the listing");
+            }
+            if f.at > 0 && f.at < lay.dirs[j].1.len() {
+                ctx.stats.probe("listing fault between two entries");
+            }
+        }
+        if j > 0 {
+            ctx.stats.probe("listing fault in a second (or nested) directory");
+        }
+        if !r.obs.stdout.is_empty() {
+            ctx.stats.probe("listing fault after rows were written");
+        }
+    } else if !planned.is_empty() {
+        ctx.stats.probe("planned listing fault not delivered (jawk stopped first)");
+    }
+    let so = strip_paths(&r.obs.stdout, &lay.paths);
+    let ro = strip_paths(&reference.obs.stdout, &lay.paths);
+    if let Outcome::Panic(m, l) = &r.outcome {
+        return viol("C16.panic", format!("jawk panicked under a failing directory listing: {m} at {l}"));
+    }
+    if let Outcome::Abort(why) = &r.outcome {
+        return viol("C16.read-stops", format!("run did not stop after a failing directory listing: {why}"));
+    }
+    if !ld {
+        let rule = if planned.is_empty() { "C16.transparent" } else { "C16.undelivered" };
+        if r.outcome.class() != reference.outcome.class() || so != ro || strip_paths(&r.obs.stderr, &lay.paths) != strip_paths(&reference.obs.stderr, &lay.paths) {
+            return viol(
+                rule,
+                format!(
+                    "no listing failure was delivered (only EINTR/short reads on the files) but the run differs: {} stdout {} vs reference {} stdout {}",
+                    r.outcome.describe(),
+                    show(&so),
+                    reference.outcome.describe(),
+                    show(&ro)
+                ),
+            );
+        }
+        return None;
+    }
+    let j = delivered[0];
+    let what = if case.dirs[j].open_fails.is_some() {
+        format!("listing directory {j} of {} could not be opened", lay.dirs.len())
+    } else {
+        format!(
+            "listing directory {j} of {} failed at entry {} of {}",
+            lay.dirs.len(),
+            case.dirs[j].entry_fault.as_ref().map_or(0, |f| f.at),
+            lay.dirs[j].1.len()
+        )
+    };
+    if !r.outcome.is_err() {
+        return viol("C16.read-reported", format!("{what} but go returned {}", r.outcome.describe()));
+    }
+    if r.obs.ok_reads_after_any_rfault > 0 {
+        return viol(
+            "C16.read-stops",
+            format!("{what}; {} successful read(s) were consumed afterwards (the error was skipped)", r.obs.ok_reads_after_any_rfault),
+        );
+    }
+    if r.obs.opens_after_any_rfault > 0 {
+        return viol(
+            "C16.read-stops",
+            format!("{what}; {} further input(s) were opened afterwards", r.obs.opens_after_any_rfault),
         );
     }
     if classify(&case.opts) != Class::Buffering && !is_prefix(&so, &ro) {
